@@ -27,7 +27,9 @@ CONSTANTS Bodies,      \* sequence of body templates (sequences of statements)
           MaxOps,      \* length of the driver histories
           SendVals,    \* set of values the driver sends (NoneV = next())
           TopChoices,  \* set of assignments of templates to the instances
-          MaxMicro     \* bound on the small steps of one call (RunF); RunComplete checks it suffices
+          MaxMicro,    \* bound on the small steps of one call (RunF); RunComplete checks it suffices
+          LockChoices, \* the assignments <<delegating template, its in-place form>> (design check only)
+          MaxOpsOne    \* history length of the single-instance design check
 
 NoneV  == [t |-> "none", i |-> 0, s |-> ""]
 IntV(n) == [t |-> "int", i |-> n, s |-> ""]
@@ -211,7 +213,12 @@ DriveLock == \E g \in 1..NTop, v \in SendVals :
    /\ IF Len(hist) % 2 = 0 THEN g = 1 ELSE (g = 2 /\ v = hist[Len(hist)].sent)
 NextLock == Step \/ DriveLock
 SpecLock == Init /\ [][NextLock]_vars
-Transparent == (active = 0 /\ Len(hist) > 0 /\ Len(hist) % 2 = 0)
+\* One design-check run for both small-step readings: assignments in LockChoices are driven in lock-step,
+\* the others (a template and an idle partner) by every history of MaxOpsOne calls on instance 1.
+DriveOne == Len(hist) < MaxOpsOne /\ \E v \in SendVals : Start(1, v)
+NextDesign == Step \/ (IF top \in LockChoices THEN DriveLock ELSE DriveOne)
+SpecDesign == Init /\ [][NextDesign]_vars
+Transparent == (top \in LockChoices /\ active = 0 /\ Len(hist) > 0 /\ Len(hist) % 2 = 0)
       => LET a == hist[Len(hist) - 1] b == hist[Len(hist)] IN a.out = b.out /\ a.log = b.log /\ a.pre = b.pre
 
 -----------------------------------------------------------------------------
